@@ -255,6 +255,10 @@ func (m *modelCtx) evalRetry(n *Node, p *PolicySpec) mres {
 		return mres{}
 	}
 	start := m.v.OpStart.T
+	n.Class = make([]int, len(n.Children))
+	for i := range n.Class {
+		n.Class[i] = -1
+	}
 	for i, ch := range n.Children {
 		if ch.Exit == nil {
 			st.unknown = true
@@ -263,6 +267,7 @@ func (m *modelCtx) evalRetry(n *Node, p *PolicySpec) mres {
 		last := i == len(n.Children)-1
 		val, err := ch.Exit.Val, ch.Exit.Err
 		if st.exceeded {
+			n.Modelled = last
 			// retries already exceeded earlier in this execution: results pass through
 			m.c.cov("model.retry.exhausted_inner_reentered")
 			if !last {
@@ -278,7 +283,9 @@ func (m *modelCtx) evalRetry(n *Node, p *PolicySpec) mres {
 			st.unknown = true
 			return mres{}
 		}
+		n.Class[i] = f
 		if f == No {
+			n.Modelled = last
 			if !last {
 				m.fail("retry.reinvoke", "after-success", fmt.Sprintf("retry policy at position %d re-invoked the inner layer after the non-failure outcome %s", n.Pos, outcomeStr(ch.Exit)))
 				return mres{}
@@ -307,6 +314,7 @@ func (m *modelCtx) evalRetry(n *Node, p *PolicySpec) mres {
 		exceeded := overCount || overDur
 		st.exceeded = exceeded
 		if ab == Yes || exceeded {
+			n.Exceeded, n.Aborted, n.Modelled = exceeded, ab == Yes, last
 			if !last {
 				why := "an abort-matching outcome"
 				if ab != Yes {
@@ -388,7 +396,9 @@ func (m *modelCtx) evalFallback(n *Node, p *PolicySpec) mres {
 		m.c.cov("ambiguous.classify")
 		return mres{}
 	}
+	n.Class = []int{f}
 	if f == No {
+		n.Modelled = true
 		m.passThrough(n, ch, "fallback")
 		if !repeated && (len(fbStarts) > 0 || len(executed) > 0) {
 			m.fail("fallback.applied", "on-success", fmt.Sprintf("fallback at position %d was applied to %s, which is not a failure by its conditions", n.Pos, outcomeStr(ch.Exit)))
@@ -400,6 +410,7 @@ func (m *modelCtx) evalFallback(n *Node, p *PolicySpec) mres {
 		return mres{}
 	}
 	m.c.cov("model.fallback.applied")
+	n.Applied, n.Modelled = true, true
 	if n.Pos == 0 {
 		m.rootFallbackApplied = true
 	}
@@ -487,10 +498,12 @@ func (m *modelCtx) evalBreaker(n *Node, p *PolicySpec) mres {
 		return mres{}
 	}
 	f := isFailure(p.Handle, ch.Exit.Val, ch.Exit.Err)
+	n.Class = []int{f}
 	if f == Either {
 		m.c.cov("ambiguous.classify")
 		return mres{}
 	}
+	n.Modelled = true
 	if f == Yes {
 		return mres{ok: true, verdict: false}
 	}
